@@ -20,7 +20,7 @@ PLAN = dict(
                           "only conservation, saturation and one-release-per-decrement at quiescence"],
     floor=dict(quick=300, thorough=10000),
     tiers=dict(
-        quick=[det("rel", H, "cs-rel", 16, 85, 4, tso=True, time_cap=28),
+        quick=[det("rel", H, "cs-rel", 16, 200, 4, tso=True, time_cap=45),
                det("dbg", H, "cs-dbg", 16, 35, 4, tso=True, time_cap=22),
                det("buffer-get-under-reservation", H, "cs-rel", 4, 120, 4, tso=False, time_cap=15, args=["--witness"]),
                tsan("C15", 4, 80)],
